@@ -70,8 +70,9 @@ theorem c03_replace (inner : Src) (rs : List Repl) (σ : Store) (hne : rs ≠ []
 
 /-! ## T3: `map()` is built from the text-less stream — and that stream attributes like the normal one -/
 
-/-- **T3** (columns = true): for every tree of Raw / Original / SourceMapSource leaves (no inner map; ASCII text, sorted map
-inside the text) under ConcatSource and ReplaceSource nodes to any depth (`ModeHyp`; no CachedSource), the text-less stream
+/-- **T3** (columns = true): for every tree of Raw / Original / SourceMapSource leaves (ASCII text, sorted map inside the text;
+*with or without an inner map* — for the combinator the outer map's positions have to increase strictly, `InnerHyp`) under
+ConcatSource and ReplaceSource nodes to any depth (`ModeHyp`; no CachedSource), the text-less stream
 that `map()` consumes (i) is sorted by generated position, (ii) announces exactly the sources and names the normal stream
 announces, in the same order, and (iii) resolves the position of every character of `source()` — last chunk mapping on that line
 at or before the column — to the same original location as the normal stream an outside caller obtains. -/
@@ -98,7 +99,7 @@ theorem c03_map_is_getMap (cs : SrcList) (t name : Text) (o : Opts) (σ : Store)
 example : (Src.concat (.cons (.orig [120, 59, 10, 121] [102]) (.cons (.rawStr [59]) (.cons
     (.sms [97, 98] [103] (SMap.mk [65, 65, 65, 65] [[104]] [] [] none none none) none none false) .nil)))).ModeHyp := by
   have hdec : decode [65, 65, 65, 65] = [⟨1, 0, some ⟨0, 1, 0, none⟩⟩] := by decide
-  refine ⟨trivial, trivial, ⟨rfl, by decide, by decide, ?_, ?_, ?_⟩, trivial⟩
+  refine ⟨trivial, trivial, ⟨trivial, by decide, by decide, ?_, ?_, ?_⟩, trivial⟩
   · rw [hdec]; exact ⟨Or.inr ⟨rfl, Nat.le_refl _⟩, trivial⟩
   · intro m hm
     rw [hdec] at hm
@@ -113,6 +114,27 @@ example : (Src.concat (.cons (.orig [120, 59, 10, 121] [102]) (.cons (.rawStr [5
     subst ho
     exact ⟨by decide, fun k hk => by cases hk⟩
 
+
+/-- non-vacuity for the combinator: a SourceMapSource *with an inner map* (both maps `AAAA`) is in the domain, and its `get_map` result
+is the one-segment map of the composed attribution -/
+example : (Src.sms [97, 98] [103] (SMap.mk [65, 65, 65, 65] [[103]] [] [] none none none) (some [120, 121])
+    (some (SMap.mk [65, 65, 65, 65] [[104]] [] [] none none none)) false).ModeHyp := by
+  have hdec : decode [65, 65, 65, 65] = [⟨1, 0, some ⟨0, 1, 0, none⟩⟩] := by decide
+  have hidx : ∀ (srcs : List Text), srcs.length = 1 → MapIdxOK (SMap.mk [65, 65, 65, 65] srcs [] [] none none none) := by
+    intro srcs hl m hm o ho
+    simp only [hdec, List.mem_singleton] at hm
+    subst hm
+    simp only [Option.some.injEq] at ho
+    subst ho
+    exact ⟨by simp only [hl]; decide, fun k hk => by cases hk⟩
+  refine ⟨⟨?_, hidx _ rfl⟩, by decide, by decide, ?_, ?_, hidx _ rfl⟩
+  · simp only [hdec]; exact List.pairwise_singleton _ _
+  · rw [hdec]; exact ⟨Or.inr ⟨rfl, Nat.le_refl _⟩, trivial⟩
+  · intro m hm
+    rw [hdec] at hm
+    simp only [List.mem_singleton] at hm
+    subst hm
+    exact ⟨⟨by decide, fun _ => by decide⟩, fun _ => by decide, by decide⟩
 
 /-! ## … including CachedSource nodes, on cold caches -/
 
